@@ -60,14 +60,7 @@ void process_lp_fini(struct lp_ctx *lp)
 }
 
 static unsigned long long n_viol, n_triples, n_nontrivial, n_lp_checked, n_clamped;
-#define VIOL(key, ...)                                                                                                 \
-	do {                                                                                                           \
-		if(n_viol++ < 10) {                                                                                    \
-			printf("VKEY C14 %s | ", key);                                                                 \
-			printf(__VA_ARGS__);                                                                           \
-			printf("\n");                                                                                  \
-		}                                                                                                      \
-	} while(0)
+#define VIOL(key, ...) do { n_viol++; vviol("C14", key, __VA_ARGS__); } while(0)
 
 static void one_triple(uint64_t L, unsigned R, unsigned T)
 {
